@@ -103,8 +103,9 @@ func (b *Bytes) Set(src Blob, destStart int64) (n int, err error) {
 	if destStart > int64(b.Len()) {
 		return 0, fmt.Errorf("Offset out of bounds: %d", destStart)
 	}
+	srcBytes := src.Bytes() // copy before locking: src may share this blob's mutex (a view of it)
 	b.mu.Lock()
-	n = copy(b.bytes[destStart:], src.Bytes())
+	n = copy(b.bytes[destStart:], srcBytes)
 	b.mu.Unlock()
 	return n, nil
 }
